@@ -519,7 +519,7 @@ func AnalyzePool(p *load.Program, r *Roles, depth int) *UnitResult {
 						if !okB {
 							msg = "the spawn loop is bounded by " + ev.Cond.Pretty() + " (workers>0 known: " + fmt.Sprint(pos) + "): not max(1, workers)"
 						}
-						chk(c, "C08.R1,C19.R5", con("spawn-bound"), okB, ev, msg)
+						chk(c, "C08.R1,C19.R5,C12.R8", con("spawn-bound"), okB, ev, msg)
 					}
 				}
 			case "return":
